@@ -11,20 +11,22 @@ cd "$wt" || exit 2
 demo=$(ls _seed/*_test.go | head -1)
 git checkout -q -- . ; git status --short | grep -v '^??' && { echo "tree not clean"; exit 2; }
 cp "$demo" "$demopkg/zz_seed_demo_test.go"
+pat=$(grep -o '^func Test[A-Za-z0-9_]*' "$demo" | sed 's/^func //' | paste -sd'|')
+pat="^($pat)\$"
 log=_seed/verify.log; : > $log
 echo "== (a) demo without patch" | tee -a $log
-go test -vet=off -count=1 -run 'SeedDemo' ./$demopkg >>$log 2>&1; a=$?
+go test -vet=off -count=1 -run "$pat" ./$demopkg >>$log 2>&1; a=$?
 echo "exit=$a" | tee -a $log
 git apply _seed/patch.diff || { echo "patch does not apply"; exit 2; }
 touched=$(git diff --name-only | xargs -n1 dirname | sort -u | sed 's#^#./#' | tr '\n' ' ')
 echo "== (b) demo with patch" | tee -a $log
-go test -vet=off -count=1 -run 'SeedDemo' ./$demopkg >>$log 2>&1; b=$?
+go test -vet=off -count=1 -run "$pat" ./$demopkg >>$log 2>&1; b=$?
 echo "exit=$b" | tee -a $log
 echo "== (c) build" | tee -a $log
 go build ./... >>$log 2>&1; c=$?
 echo "exit=$c" | tee -a $log
 echo "== (d) existing tests with patch: $touched $*" | tee -a $log
-go test -vet=off -count=1 -timeout 20m -skip 'SeedDemo' $touched "$@" >>$log 2>&1; d=$?
+go test -vet=off -count=1 -timeout 20m -skip "$pat" $touched "$@" >>$log 2>&1; d=$?
 echo "exit=$d" | tee -a $log
 if [ $a -eq 0 ] && [ $b -ne 0 ] && [ $c -eq 0 ] && [ $d -eq 0 ]; then
   out=/verif/seeded/$name; mkdir -p $out
